@@ -24,6 +24,8 @@ def run_scenario(scn: dict, *, fast: bool = False, init: int = 1, maxv: int = 0,
 
     def fire(act: dict) -> None:
         t = act["t"]
+        if state["tasks"][t].done():
+            return
         rec.emit(ev="creq", t=t)
         if act["c"] == "cancel":
             state["scopes"][t].cancel()
